@@ -16,6 +16,14 @@
                the stored stop index of the same ``identifier-iterable`` key and every loop
                stores its stop index; ``reversed`` reverses the *sliced* items; ``ForNode`` renders
                its ``else`` block exactly when the sliced length is 0.
+  C13-BIND     the helper objects are built from the values they describe: at every
+               ``ForLoop(...)`` / ``TableRow(...)`` construction in the loop nodes (both twins)
+               the ``it`` parameter receives the sliced iterator and ``length`` the sliced length
+               — the pair returned by ``self.expression.evaluate*`` — ``ncols`` receives the
+               ``cols`` value (derived from ``self.expression.cols``, or the length when there
+               is none) and never the other way round; each constructor stores every one of
+               these parameters on the attribute of the same name (the helper formulas read
+               ``self.length`` / ``self.ncols`` / ``self.it``).
   C13-HELPERS  the ``forloop`` / ``tablerowloop`` helper properties are the documented formulas of
                the running index (index = i+1, rindex = length-i, first = i==0,
                last = i==length-1, col/row stepping by ``ncols``).
@@ -56,7 +64,7 @@ TABLEROW_FORMULAS = {
 
 def run(repo: Repo) -> Result:
     res = Result(PID)
-    res.rules = ["C13-INTERRUPT", "C13-BOUNDS", "C13-NONE", "C13-SHAPE", "C13-HELPERS"]
+    res.rules = ["C13-INTERRUPT", "C13-BOUNDS", "C13-NONE", "C13-SHAPE", "C13-BIND", "C13-HELPERS"]
     res.explanation = "who raises/catches the loop interrupts; sign facts of the islice bounds; None-tests of limit/offset; helper formula tables"
     res.assumptions = ["visited items for particular data are value-level"]
 
@@ -272,6 +280,9 @@ def run(repo: Repo) -> Result:
         if not okf:
             res.add("C13-SHAPE", q, "forloop", "the forloop helper must be built from the sliced iterator and its length", f.file, f.line)
 
+    # ---- C13-BIND -------------------------------------------------------------------------
+    _check_bind(repo, res)
+
     # ---- C13-HELPERS ----------------------------------------------------------------------
     for cq, table in ((f"{FOR}.ForLoop", FORLOOP_FORMULAS), (f"{TR}.TableRow", TABLEROW_FORMULAS)):
         c = repo.cls(cq)
@@ -311,6 +322,82 @@ def run(repo: Repo) -> Result:
     return res
 
 
+def _check_bind(repo: Repo, res: Result) -> None:
+    from ..astutil import bind_args
+    from ..normalize import normalize
+
+    n_sites = 0
+    for helper_q, node_q in ((f"{FOR}.ForLoop", f"{FOR}.ForNode"), (f"{TR}.TableRow", f"{TR}.TablerowNode")):
+        hc = repo.cls(helper_q)
+        hinit = hc.methods.get("__init__")
+        if hinit is None:
+            raise AnchorMissing(f"{helper_q}.__init__ not found")
+        params = [p for p in hinit.params() if p != "self"]
+        # constructor stores
+        for p in ("it", "length") + (("ncols",) if "ncols" in params else ()):
+            res.ob(f"bind:store:{helper_q}.{p}")
+            if p not in params:
+                res.add("C13-BIND", helper_q, f"param:{p}", f"{hc.name}.__init__ has no parameter `{p}`", hc.file, hinit.line)
+                continue
+            stores = [st for st in walk_no_nested(hinit.node) if isinstance(st, (ast.Assign, ast.AnnAssign)) and attr_chain(st.targets[0] if isinstance(st, ast.Assign) else st.target) == ["self", p]]
+            vals = [text(st.value) for st in stores]
+            if vals not in ([p], [f"iter({p})"]):
+                res.add("C13-BIND", helper_q, f"store:{p}<-{vals}", f"{hc.name}.__init__ must store the parameter `{p}` on self.{p} (found {vals}): the helper formulas read self.{p}", hc.file, hinit.line)
+        nc = repo.cls(node_q)
+        for mname in ("render_to_output", "render_to_output_async"):
+            m = nc.methods.get(mname)
+            if m is None:
+                raise AnchorMissing(f"{node_q}.{mname} not found")
+            nnode = normalize(repo, m, aliases=False)
+            # the pair returned by the loop expression
+            pair = None
+            for st in ast.walk(nnode):
+                if isinstance(st, ast.Assign) and isinstance(st.targets[0], ast.Tuple) and len(st.targets[0].elts) == 2 and all(isinstance(e, ast.Name) for e in st.targets[0].elts):
+                    v = unwrap_await(st.value)
+                    if isinstance(v, ast.Call) and callee_name(v) in ("evaluate", "evaluate_async") and attr_chain(v.func.value) == ["self", "expression"]:
+                        pair = (st.targets[0].elts[0].id, st.targets[0].elts[1].id)
+            if pair is None:
+                raise AnchorMissing(f"{m.qual}: `it, length = self.expression.evaluate*(context)` not found")
+            assigns: dict[str, list] = {}
+            for st in ast.walk(nnode):
+                if isinstance(st, ast.Assign) and len(st.targets) == 1 and isinstance(st.targets[0], ast.Name):
+                    assigns.setdefault(st.targets[0].id, []).append(unwrap_await(st.value))
+            # the pair's names must not be rebound
+            for nm in pair:
+                if nm in assigns:
+                    res.add("C13-BIND", m.qual, f"rebound:{nm}", f"{m.qual} rebinds `{nm}`, one half of the (iterator, length) pair returned by the loop expression, before building the helper", m.file, m.line)
+            ctor = [c for c in ast.walk(nnode) if isinstance(c, ast.Call) and callee_name(c) == hc.name]
+            if len(ctor) != 1:
+                raise AnchorMissing(f"{m.qual}: expected exactly one {hc.name}(...) construction, found {len(ctor)}")
+            n_sites += 1
+            b = bind_args(ctor[0], hinit.node)
+            res.ob(f"bind:{m.qual}", 3)
+            if b is None:
+                res.add("C13-BIND", m.qual, "unbindable", f"{m.qual}: the arguments of {hc.name}(...) cannot be bound statically", m.file, ctor[0].lineno)
+                continue
+            if not is_name(b.get("it"), pair[0]):
+                res.add("C13-BIND", m.qual, f"it<-{text(b.get('it')) if b.get('it') is not None else None}", f"{m.qual}: {hc.name}'s `it` must be the sliced iterator `{pair[0]}` returned by the loop expression", m.file, ctor[0].lineno)
+            if not is_name(b.get("length"), pair[1]):
+                res.add("C13-BIND", m.qual, f"length<-{text(b.get('length')) if b.get('length') is not None else None}", f"{m.qual}: {hc.name}'s `length` must be the sliced length `{pair[1]}` returned by the loop expression (rindex, last and length are computed from it)", m.file, ctor[0].lineno)
+            if "ncols" in params:
+                v = b.get("ncols")
+                srcs = assigns.get(v.id, []) if isinstance(v, ast.Name) else ([v] if v is not None else [])
+                ok = bool(srcs) and not is_name(v, pair[1]) or (isinstance(v, ast.IfExp))
+                if isinstance(v, ast.IfExp):
+                    srcs = [v.body, v.orelse]
+                    ok = True
+                for sv in srcs:
+                    if is_name(sv, pair[1]):
+                        continue  # no cols argument: one row as long as the loop
+                    if "self.expression.cols" in text(sv):
+                        continue
+                    ok = False
+                if not ok or not any("self.expression.cols" in text(sv) for sv in srcs):
+                    res.add("C13-BIND", m.qual, f"ncols<-{text(v) if v is not None else None}", f"{m.qual}: {hc.name}'s `ncols` must be the value of the cols argument (self.expression.cols), or the length when there is none — found `{text(v) if v is not None else None}` <- {[text(x)[:40] for x in srcs]}", m.file, ctor[0].lineno)
+    if n_sites < 4:
+        raise AnchorMissing(f"only {n_sites} helper constructions found (4 confirmed by hand)")
+
+
 def selftest(repo: Repo):
     from ..selftest import Variant, text_edit
 
@@ -321,6 +408,11 @@ def selftest(repo: Repo):
     F = "liquid/builtin/tags/for_tag.py"
     T = "liquid/builtin/tags/tablerow_tag.py"
     return [
+        lambda: Variant("tablerow-args-swapped-async-only", {T: "        tablerow = TableRow(name, loop_iter, cols, length)".join(next(m for m in repo.modules.values() if m.relpath == T).source.rsplit("        tablerow = TableRow(name, loop_iter, length, cols)", 1))}, "C13-BIND"),
+        v("tablerow-ncols-is-length", T, "        tablerow = TableRow(name, loop_iter, length, cols)", "        tablerow = TableRow(name, loop_iter, length, length)", "C13-BIND", count=2),
+        v("tablerow-helper-stores-swapped", T, "        self.length = length\n        self.ncols = ncols", "        self.length = ncols\n        self.ncols = length", "C13-BIND"),
+        v("forloop-length-from-unsliced", F, "                length=length,\n", "                length=len(list(it)),\n", "C13-", count=2),
+        lambda: Variant("tablerow-keyword-construction-is-silent", text_edit(repo, T, "        tablerow = TableRow(name, loop_iter, length, cols)", "        tablerow = TableRow(name=name, it=loop_iter, ncols=cols, length=length)", 2), "C13-", silent=True),
         v("stop-from-clamped-start", L, "        stop = None if limit is None else limit + start\n\n        start_ = min(max(start, 0), length)\n", "        start_ = min(max(start, 0), length)\n        stop = None if limit is None else limit + start_\n", "C13-SHAPE"),
         v("length-from-raw-bounds", L, "        length_ = max(stop_ - start_, 0)", "        length_ = max(stop_ - start, 0)", "C13-SHAPE"),
         lambda: Variant("equivalent-rewrite-is-silent", text_edit(repo, L, "        stop = None if limit is None else limit + start\n\n        start_ = min(max(start, 0), length)\n        stop_ = length if stop is None else min(max(stop, 0), length)\n        length_ = max(stop_ - start_, 0)\n\n        context.stopindex(key=offset_key, index=stop_)\n        it = islice(it, start_, stop_)\n", "        lo = min(length, max(0, start))\n        hi = length if limit is None else min(max(start + limit, 0), length)\n        length_ = max(hi - lo, 0)\n\n        context.stopindex(key=offset_key, index=hi)\n        it = islice(it, lo, hi)\n", 1), "C13-", silent=True),
